@@ -376,3 +376,47 @@ func verifHarnessC15Notify() {
 }
 
 var _ = errors.New
+
+// C16/C15: NewUpdater (lookupWatcher) for known and unknown names, lookups enabled or not.
+func verifHarnessC16LookupWatcher() {
+	verifEnvReset()
+	client := &verifLockClient{}
+	client.mayFail = true
+	cache := &verifCache{mayFail: true}
+	s := verifSymStore(param("names"), &client.verifClient, cache)
+	client.s = s
+	s.client = client
+	assume(verifStoreInv(s))
+	name := nondetString("name")
+	if nondetBool("svc.knows") && name != "" {
+		if !mapHas(client.svc, name) {
+			client.svc[name] = &api.SecretValue{Value: nondetSeq("svc.newval"), Version: api.SecretVersion(nondetU32("svc.newver"))}
+		}
+	}
+	known := mapHas(s.active.m, name)
+	pre := snapshot(s.active.m)
+	watchers0 := len(s.active.w[name])
+	verifGuardStore(s)
+	ctx := &verifCtx{tag: "caller", hasDeadline: true, deadlineNS: 1 << 50}
+	builds := 0
+	u, err := NewUpdater(ctx, s, name, func(bs []byte) (int, error) { builds++; return len(bs), nil })
+	guardOff()
+	assert("lock-released-and-balanced", notHeld(&s.active.Mutex))
+	assert("inv", verifStoreInv(s))
+	if known {
+		assert("known-name-no-request", and(err == nil, u != nil, client.requests == 0))
+	}
+	if !known && !s.allowLookup {
+		assert("disabled-lookup-is-error-without-request", and(err != nil, u == nil, client.requests == 0, deepEq(s.active.m, pre)))
+		reach("end-disabled")
+		return
+	}
+	if err != nil {
+		assert("failed-installs-nothing", and(u == nil, deepEq(s.active.m, pre), len(s.active.w[name]) == watchers0))
+		reach("end-failed")
+		return
+	}
+	assert("watcher-registered-before-first-read", and(len(s.active.w[name]) == watchers0+1, builds == 1))
+	assert("handle-registered", mapHas(s.active.f, name))
+	reach("end-ok")
+}
